@@ -142,7 +142,17 @@ class Shape:
         self.baseline = baseline   # expected code of the fault-free run
 
 
+_shape_cache = {}
+
+
 def shapes(v1=False, seed=7):
+    key = (v1, seed)
+    if key not in _shape_cache:
+        _shape_cache[key] = _shapes(v1, seed)
+    return _shape_cache[key]
+
+
+def _shapes(v1=False, seed=7):
     rng = random.Random(seed)
     out = []
     hb = {"signature": der.make_sig(rng, "normal")[0], "message": rng.randbytes(70),
@@ -209,5 +219,6 @@ def make_device(shape, seed=11):
                state={"hashes": {h: rng.randbytes(32) for h in fw_hash_ids},
                       "difficulty": rng.getrandbits(200), "flags": (1, 0, 1)},
                chunk=ChunkPolicy("fw", 80))
-    cfg.update(shape.devcfg)
+    for k, v in shape.devcfg.items():
+        cfg[k] = dict(v) if isinstance(v, dict) else v
     return SimDevice(**cfg)
